@@ -17,7 +17,7 @@ import numpy as np
 
 from symx import term as tm, solver
 from symx.sym import explore, Inconclusive, ctx
-from symx.symint import SInt, sym_int, canonical_token
+from symx.symint import SInt, sym_int, canonical_token, sym_set, sym_sorted
 from symx.harness import FuncTrace, source_digest
 from .ch.fakefs import FakeFS, FakeH5, FakeOS, FakeNP
 
@@ -63,7 +63,7 @@ class Truth:
 
 def install(reading, truth, layout, fs=None):
     """patch the module under test; returns a restore function"""
-    saved = {k: getattr(reading, k, None) for k in ('h5py', 'os', 'np', 'int', 'iterations', 'get_content',
+    saved = {k: getattr(reading, k, None) for k in ('h5py', 'os', 'np', 'int', 'set', 'sorted', 'iterations', 'get_content',
                                                      'read_ET_group_or_var')}
 
     def iterations(param, **kw):
@@ -86,11 +86,12 @@ def install(reading, truth, layout, fs=None):
     reading.iterations, reading.get_content, reading.read_ET_group_or_var = iterations, get_content, read_ET_group_or_var
     if fs is not None:
         reading.h5py, reading.os, reading.np, reading.int = FakeH5(fs), FakeOS(fs), FakeNP(), sym_int
+        reading.set, reading.sorted = sym_set, sym_sorted
 
     def restore():
         for k, v in saved.items():
             if v is None:
-                if hasattr(reading, k) and k == 'int':
+                if hasattr(reading, k) and k in ('int', 'set', 'sorted'):
                     delattr(reading, k)
             else:
                 setattr(reading, k, v)
